@@ -1,3 +1,107 @@
+/-
+C19 (lists) — the loop functions of src/common.py equal their set-theoretic specification for every
+sorted, pairwise disjoint, well-formed interval list (no bound on length or coordinates).
+`inter l₁ l₂` (Lemmas/Interval.lean) is the number of common positions written as the double sum of the
+generated `intersection_len`, which `C19.intersection_len_eq` grounds in positions.
+-/
 import IsoVerif.Props.C19
+import IsoVerif.Lemmas.Interval
+import IsoVerif.Lemmas.BinSearch
+import IsoVerif.Lemmas.Lists
+
 namespace IsoVerif.Props.C19Lists
+open IsoVerif.Gen IsoVerif.Model IsoVerif.Lemmas
+
+/-! ### total length, coverage sweep -/
+
+theorem total_length_eq_sum (l : List Iv) :
+    intervalsTotalLength l = (l.map (fun r => r.2 - r.1 + 1)).sum := by
+  induction l with
+  | nil => rfl
+  | cons a t ih => simp [intervalsTotalLength, interval_len, ih]
+
+/-- the two-pointer sweep of `read_coverage_fraction` returns the number of common positions -/
+theorem coverage_sweep_eq (l1 l2 : List Iv) (h1 : SD l1) (h2 : SD l2) (w1 : WFl l1) (w2 : WFl l2) :
+    readCoverageSweep l1 l2 = inter l1 l2 :=
+  sweep_eq_inter l1 l2 h1 h2 w1 w2
+
+/-- `read_coverage_fraction` = |read ∩ isoform| / |read| (as an exact fraction); it raises exactly when the
+    read has total length 0 -/
+theorem coverage_fraction_spec (read iso : List Iv) (h1 : SD read) (h2 : SD iso) (w1 : WFl read) (w2 : WFl iso) :
+    readCoverageFraction read iso =
+      if intervalsTotalLength read = 0 then none else some (inter read iso, intervalsTotalLength read) := by
+  simp only [readCoverageFraction, coverage_sweep_eq read iso h1 h2 w1 w2]
+
+example : SD [(1, 5), (10, 12)] ∧ SD [(4, 11)] ∧ readCoverageFraction [(1, 5), (10, 12)] [(4, 11)] = some (4, 8) := by
+  decide +kernel
+
+/-! ### prefix / suffix sums -/
+
+/-- `lenBelow r p` / `lenAbove r p` (Lemmas/Lists.lean) are the numbers of positions of `r` that are `< p` / `> p` -/
+theorem lenBelow_def (r : Iv) (p : Int) : lenBelow r p = max 0 (min r.2 (p - 1) - r.1 + 1) := rfl
+theorem lenAbove_def (r : Iv) (p : Int) : lenAbove r p = max 0 (r.2 - max r.1 (p + 1) + 1) := rfl
+
+theorem sum_to_point_spec (l : List Iv) (p : Int) (h : SD l) (w : WFl l) (hne : l ≠ []) :
+    sumIntervalsToPoint l p = some ((l.map (lenBelow · p)).sum) :=
+  sum_to_point_aux l p h w hne
+
+theorem sum_from_point_spec (l : List Iv) (p : Int) (h : SD l) (w : WFl l) (hne : l ≠ []) :
+    sumIntervalsFromPoint l p = some ((l.map (lenAbove · p)).sum) :=
+  sum_from_point_aux l p h w hne
+
+/-- on the empty list the real code raises IndexError; so does the model -/
+theorem sum_to_point_empty (p : Int) : sumIntervalsToPoint [] p = none := rfl
+
+example : sumIntervalsToPoint [(1, 5), (10, 12)] 11 = some 6 ∧ sumIntervalsFromPoint [(1, 5), (10, 12)] 3 = some 5 := by
+  decide
+
+/-! ### junctions and exons are inverse -/
+
+/- `Gapped` (Lemmas/Lists.lean): exon lists as produced from an alignment — well formed, each exon separated
+   from the next by ≥ 1 base -/
+
+theorem junctions_exons_inverse (ex : List Iv) (f t : Iv) (h : Gapped ex)
+    (hf : ex.head? = some f) (ht : ex.getLast? = some t) :
+    getExons (f.1, t.2) (junctionsFromBlocks ex) = ex :=
+  junctions_exons_inverse_aux ex f t h hf ht
+
+/-- introns are exactly the gaps: each junction abuts the exons on both sides -/
+theorem junctions_are_gaps (a b : Iv) (t : List Iv) (h : a.2 + 1 < b.1) :
+    junctionsFromBlocks (a :: b :: t) = (a.2 + 1, b.1 - 1) :: junctionsFromBlocks (b :: t) := by
+  simp [junctionsFromBlocks, h]
+
+theorem junctions_skip_touching (a b : Iv) (t : List Iv) (h : ¬ a.2 + 1 < b.1) :
+    junctionsFromBlocks (a :: b :: t) = junctionsFromBlocks (b :: t) := by
+  simp [junctionsFromBlocks, h]
+
+example : Gapped [(1, 5), (10, 12), (20, 30)] ∧
+    getExons (1, 30) (junctionsFromBlocks [(1, 5), (10, 12), (20, 30)]) = [(1, 5), (10, 12), (20, 30)] := by
+  refine ⟨by simp [Gapped], by decide⟩
+
+/-! ### binary search: termination, index safety and result -/
+
+/-- for strictly increasing starts, a position inside `[l[t].1, l[t+1].1)` is found at index `t`
+    (the halving loop terminates within the fuel and never leaves the list) -/
+theorem bin_search_spec (l : List Iv) (pos : Int) (hinc : StrictInc (l.map (·.1))) (hw : WFl l)
+    (f tl : Iv) (hf : l.head? = some f) (ht : l.getLast? = some tl)
+    (t : Nat) (a b : Iv) (hta : l[t]? = some a) (htb : l[t + 1]? = some b)
+    (hpa : a.1 ≤ pos) (hpb : pos < b.1) (hin : pos ≤ tl.2) :
+    intervalBinSearch l pos = some (t : Int) :=
+  bin_search_aux l pos hinc hw f tl hf ht t a b hta htb hpa hpb hin
+
+theorem bin_search_outside (l : List Iv) (pos : Int) (f tl : Iv) (hf : l.head? = some f) (ht : l.getLast? = some tl)
+    (hout : pos > tl.2 ∨ pos < f.1) : intervalBinSearch l pos = some (-1) := by
+  simp [intervalBinSearch, hf, ht, hout]
+
+theorem bin_search_last (l : List Iv) (pos : Int) (f tl : Iv) (hf : l.head? = some f) (ht : l.getLast? = some tl)
+    (h1 : f.1 ≤ pos) (h2 : tl.1 ≤ pos) (h3 : pos ≤ tl.2) :
+    intervalBinSearch l pos = some ((l.length : Int) - 1) := by
+  have hne : l ≠ [] := by intro e; simp [e] at hf
+  have : 0 < l.length := List.length_pos_iff.mpr hne
+  simp [intervalBinSearch, hf, ht]
+  have : ¬ (tl.2 < pos ∨ pos < f.1) := by omega
+  simp [this, h2]; omega
+
+example : intervalBinSearch [(1, 5), (10, 12), (20, 30), (40, 41), (50, 60)] 11 = some 1 := by decide
+
 end IsoVerif.Props.C19Lists
